@@ -176,12 +176,15 @@ Reindenting == IsTrue("reindent") \/ IsTrue("reindent_aligned") \/ IsTrue("inden
 
 \* Finding C08-strip-comments-glues-neighbours, stated exactly: the output carries the same
 \* non-blank character stream as expected, and the only token boundaries of the input that are no
-\* token boundaries of the output are those where a comment was removed.
+\* token boundaries of the output are those where a comment was removed that stood at the FRONT EDGE of
+\* its token list in the grouped tree (first child, or right behind `(`: `edge`, recorded from the real
+\* tree) - the one place where the filter leaves no blank.  A glue at any other removed comment is not
+\* this finding.
 RECURSIVE CumLens(_, _, _)
 CumLens(vals, i, acc) == IF i > Len(vals) THEN <<>> ELSE <<acc + Len(vals[i])>> \o CumLens(vals, i + 1, acc + Len(vals[i]))
 RECURSIVE CmtBefore(_, _)           \* for every non-comment input token: was a comment removed right before it?
 CmtBefore(i, seen) == IF i > Len(T.insig) THEN <<>>
-                      ELSE IF T.insig[i].k = "cmt" THEN CmtBefore(i + 1, TRUE)
+                      ELSE IF T.insig[i].k = "cmt" THEN CmtBefore(i + 1, seen \/ T.insig[i].edge)   \* only a comment at the front edge of its token list
                       ELSE <<seen>> \o CmtBefore(i + 1, FALSE)
 GlueOnlyAtRemovedComments ==
     LET inv  == [i \in 1..Len(Expected) |-> Expected[i].val]
